@@ -824,3 +824,80 @@ func HarnessC08PairExpo() {
 		since = nil
 	}
 }
+
+// C02.seqf64: the float64 instance of the sum aggregators. Floating-point
+// addition is not associative, so conservation is stated as: each reported
+// value is bit-for-bit the left-to-right sum of the measurements it covers
+// (the order in which a sequential caller made them); a monotonic sum of
+// non-negative finite inputs never decreases.
+func HarnessC02SeqF64() {
+	aggClock()
+	mono := vndChoice(2) == 1
+	md, cd := Builder[float64]{Temporality: metricdata.DeltaTemporality}.Sum(mono)
+	mc, cc := Builder[float64]{Temporality: metricdata.CumulativeTemporality}.Sum(mono)
+	ctx := context.Background()
+	var total, pending, lastCum [2]float64
+	var everSeen, pendingSeen [2]bool
+	k := vndParam("K", 4)
+	points := func(a metricdata.Aggregation) (val [2]float64, present [2]bool, n int) {
+		s, _ := a.(metricdata.Sum[float64])
+		for _, p := range s.DataPoints {
+			n++
+			for i := 0; i < 2; i++ {
+				if p.Attributes.Equals(&aggSets[i]) {
+					val[i], present[i] = p.Value, true
+				}
+			}
+		}
+		return
+	}
+	for step := 0; step < k; step++ {
+		switch vndChoice(3) {
+		case 0:
+			v := vndF64()
+			vndAssume(vndAnd(v >= -1e300, v <= 1e300)) // finite (and not NaN)
+			if mono {
+				vndAssume(v >= 0)
+			}
+			si := vndChoice(2)
+			md(ctx, v, aggSets[si])
+			mc(ctx, v, aggSets[si])
+			total[si] += v
+			pending[si] += v
+			everSeen[si], pendingSeen[si] = true, true
+		case 1:
+			var dest metricdata.Aggregation
+			cd(&dest)
+			val, present, n := points(dest)
+			want := 0
+			for i := 0; i < 2; i++ {
+				vndAssert(present[i] == pendingSeen[i], "delta-reports-exactly-the-sets-measured-in-the-cycle")
+				if present[i] {
+					want++
+					vndAssert(math.Float64bits(val[i]) == math.Float64bits(pending[i]), "delta-value-is-the-in-order-sum-of-the-cycle")
+				}
+				pending[i], pendingSeen[i] = 0, false
+			}
+			vndAssert(n == want, "delta-point-count")
+			vndReach("collect-delta")
+		case 2:
+			var dest metricdata.Aggregation
+			cc(&dest)
+			val, present, n := points(dest)
+			want := 0
+			for i := 0; i < 2; i++ {
+				vndAssert(present[i] == everSeen[i], "cumulative-reports-every-set-seen")
+				if present[i] {
+					want++
+					vndAssert(math.Float64bits(val[i]) == math.Float64bits(total[i]), "cumulative-value-is-the-in-order-running-total")
+					if mono {
+						vndAssert(val[i] >= lastCum[i], "monotonic-sum-never-decreases")
+					}
+					lastCum[i] = val[i]
+				}
+			}
+			vndAssert(n == want, "cumulative-point-count")
+			vndReach("collect-cumulative")
+		}
+	}
+}
